@@ -12,6 +12,9 @@ ID = "C15"
 THEOREM_FILE = "Properties/C15.v"
 IMPORTS = "From Annet Require Import Model.Merge Spec.P_C15."
 TY_MERGE = "merge_input * merge_output"
+IMPORTS_SEQ = ("From Annet Require Import Model.Merge Model.Mesh Model.MeshExec Spec.P_C15 Spec.P_C15_iface "
+               "Spec.P_C15_seq.")
+TY_MERGE_FRAME = "(merge_input * merge_output) * (entries * entries * entries)"
 META = {
     "text": "Proof (merge algebra, unbounded): unset objects are neutral, merge is associative, commutative "
             "modulo the element order of Concat fields (UseFirst/UseLast classes excluded and reported), hence a "
@@ -35,7 +38,19 @@ META = {
             "implementation (every Peer field, PeerOptions, interface, and the (interface, address, vrf) log) on "
             "generated registries with direct, indirect and virtual rules, (c) permutation invariance of handler "
             "registration, mirror of both ends, and a no-leak predicate (every option of a peer was set by a call "
-            "for its pair).",
+            "for its pair), (d) NO LOSS: every handler call of a matching rule shows on both ends -- a peer towards the "
+            "other end at the address the call gave, carrying every option / policy / family / AS number / vrf the "
+            "call wrote (Spec.P_C15_seq.P_C15_no_loss; proved for the model per merge, per n-ary merge and per handler "
+            "call: C15_merge_no_loss, C15_merge_all_no_loss, C15_call_no_loss; after the keyed merge only a "
+            "statement, C15_no_loss_statement) -- with rules whose name template is a literal host name (no "
+            "placeholder) on the left, the right or both sides, direct and indirect, alone (decision tables) and next "
+            "to pattern rules, (e) every address family of a peer was assigned by a call for its pair (value level), "
+            "(f) HISTORY: one registry whose handlers assign shared constant objects (equal values are one object), a "
+            "first executor computing every device in turn and a second executor computing them in reverse order; "
+            "Coq compares every run of the sequence with the fresh run of that device (P_C15_history; the model is a "
+            "pure function, C15_sequence_is_pointwise, so this is model = implementation for sequences) and "
+            "evaluates no-leak / families-assigned on the later runs, (g) FRAME of merge: the operands of every "
+            "merge() call are compared, in Coq, with what they were before the call (P_C15_frame).",
     "technique": "Coq induction over rule-match lists, keyed accumulators and nested model values; vm_compute "
                  "differential check of the Gallina model against the real code",
     "note": "partial: the mirror theorems are per rule match (after the keyed merge of several handlers the two ends "
@@ -315,15 +330,21 @@ def top_overlap(out) -> int:
 def run_merge_part(ctx, tbl):
     cases = gen_merge_cases(ctx, tbl)
     outs = core.run_impl_sharded("c15_runner.py", cases, wrap=lambda c: {"op": "merge", "cases": c})
-    for c, o in zip(cases, outs):
-        if o["mutated"]:
-            raise core.CheckFailure(f"merge mutated its inputs: {json.dumps(c)[:500]}")
-    terms = [merge_term(tbl, c, o) for c, o in zip(cases, outs)]
-    preds = {"agree": "fun c => agree_merge (fst c) (snd c)",
-             "holds": "fun c => P_C15_merge (fst c) (snd c)",
-             "wf": "fun c => wf_C15_merge (fst c)"}
-    res = core.run_case_files(ID, TY_MERGE, IMPORTS, preds, terms, per_file=120, tag="merge",
+    # the operands as they are after the calls ride along: Coq decides whether merge left them alone
+    terms = [cpair(merge_term(tbl, c, o), cpair(*(centries(x["v"]) for x in o["after"]))) for c, o in zip(cases, outs)]
+    preds = {"agree": "fun c => agree_merge (fst (fst c)) (snd (fst c))",
+             "holds": "fun c => P_C15_merge (fst (fst c)) (snd (fst c))",
+             "wf": "fun c => wf_C15_merge (fst (fst c))",
+             "frame": "fun c => P_C15_frame (fst (fst c)) (snd c)"}
+    res = core.run_case_files(ID, TY_MERGE_FRAME, IMPORTS_SEQ, preds, terms, per_file=120, tag="merge",
                               extra_defs=schema_defs(tbl))
+    for i in res["frame"][:2]:
+        ctx.add_violation(core.Violation(
+            signature=f"C15/merge-mutates-operand/{cases[i]['cls']}",
+            what="annet.mesh.basemodel.merge changed one of its operands (an object a handler or an earlier "
+                 "session still refers to): merged data leaks into whatever shares that object",
+            replay={"kind": "merge", "case": cases[i],
+                    "impl": {"inputs": outs[i]["inputs"], "after": outs[i]["after"]}}))
     illtyped = {i for i, c in enumerate(cases) if c["src"] == "ill-typed"}
     unexpected_wf = [i for i in res["wf"] if i not in illtyped]
     if unexpected_wf:
@@ -359,6 +380,7 @@ def run_merge_part(ctx, tbl):
     return {
         "evaluations": len(cases), "distinct_nontrivial": nontrivial, "outcome_histogram(a+b)": hist,
         "disagreements": len(res["agree"]), "order_dependent_classes_excluded_from_commutativity": excluded,
+        "operands_changed_by_merge": len(res["frame"]),
         "samples": [{"input": c, "impl": {"outs": o["outs"][:2]}} for c, o in list(zip(cases, outs))[n_sample_at(cases):][:2]],
     }
 
@@ -377,7 +399,12 @@ MASKS = {  # template -> (regex the generator uses to know what it matches, has 
     "a{n}": (r"a(\d+)", True), "b{n}": (r"b(\d+)", True), "c{n}": (r"c(\d+)", True),
     "{r:[ab]}{n}": (r"[ab](\d+)", True), "{r:[bc]}{n}": (r"[bc](\d+)", True),
     "{x:.*}": (r".*", False), "{r:\\w}{n}": (r"\w(\d+)", True),
+    # literal host names: PeerNameTemplate.match gives an empty (falsy) dict of groups
+    "a1": (r"a1", False), "a2": (r"a2", False), "b1": (r"b1", False), "b2": (r"b2", False),
+    "b3": (r"b3", False), "c1": (r"c1", False),
 }
+LITERALS = ["a1", "a2", "b1", "b2", "b3", "c1"]
+PATTERNS = [m for m in MASKS if m not in LITERALS]
 CONDS = {"none": lambda l, r: True, "eq": lambda l, r: l == r, "lt": lambda l, r: l < r, "ne": lambda l, r: l != r}
 FAMS = ["ipv4_unicast", "ipv6_unicast", "l2vpn_evpn"]
 SESSION_OPTS = ["add_path", "multipath", "send_labeled"]           # _SharedOptionsDTO: may be set on the session
@@ -431,20 +458,47 @@ def gen_exec_case(rng, big: bool) -> dict:
     def conn(x, y):
         return [(p, nbp) for p, nb, nbp in ports[x] if nb == y]
     n_rules = rng.choice([1, 2, 2, 3, 3, 4] if big else [1, 2, 2, 3, 3, 3])
-    shared_mask = rng.choice(list(MASKS)), rng.choice(list(MASKS))
+    # "constants" flavour: the handlers draw the families from a few recurring sets (as handlers that assign module
+    # level constants do) and several rules describe the same session, so that the sets of one rule meet the sets of
+    # another in a keyed merge while the same sets are in use for other pairs and in later runs
+    consts_flavour = rng.random() < 0.35
+    fam_pool = [{"ipv4_unicast"}, {"ipv4_unicast", "ipv6_unicast"}, {"l2vpn_evpn"}, {"ipv6_unicast"}]
+    if consts_flavour:
+        n_rules = max(n_rules, 2)
+    case_kind, case_extra = ("direct" if rng.random() < 0.6 else "indirect"), rng.random()
+    shared_mask = rng.choice(PATTERNS), rng.choice(PATTERNS)
     rules = []
     for ri in range(n_rules):
         kind = "direct" if rng.random() < 0.65 else "indirect"
+        if consts_flavour and rng.random() < 0.8:
+            kind = case_kind
         if rng.random() < 0.6:
             lm, rm = shared_mask
         else:
-            lm, rm = rng.choice(list(MASKS)), rng.choice(list(MASKS))
+            lm, rm = rng.choice(PATTERNS), rng.choice(PATTERNS)
         if kind == "indirect" and rng.random() < 0.5:
             lm, rm = "{r:\\w}{n}", rng.choice(["{r:\\w}{n}", "{x:.*}"])   # several indirect sessions per device
-        rule = {"kind": kind, "left": lm, "right": rm, "cond": rng.choice(["none", "none", "eq", "lt", "ne"]),
+        cond = rng.choice(["none", "none", "eq", "lt", "ne"])
+        lit = rng.random()
+        if lit < 0.3:
+            # a literal host name (a template without placeholder) on the left, the right or both sides, alone or
+            # next to pattern rules for the same pair
+            side = rng.choice(["l", "r", "lr"])
+            if "l" in side:
+                lm = rng.choice(devs)
+            if "r" in side:
+                rm = rng.choice([d for d in devs if d != lm] or devs)
+            if rng.random() < 0.85:
+                cond = "none"                     # Left.n / Right.n do not exist for a literal name
+        rule = {"kind": kind, "left": lm, "right": rm, "cond": cond,
                 "pp": rng.choice(["united", "united", "separate"]), "table": {}}
         variant = 0 if rng.random() < 0.7 else ri + 1      # variant 0: same session as other handlers
+        if consts_flavour:
+            variant = 0
+            rule_fams = rng.choice(fam_pool)
         extra = rng.random()
+        if consts_flavour:
+            extra = case_extra                         # the rules agree on where the AS number is written
         for L in devs:
             for R in devs:
                 if not rule_matches(rule, L, R):
@@ -477,7 +531,10 @@ def gen_exec_case(rng, big: bool) -> dict:
                         l["asnum"] = 64999 - ri                     # conflicting AS numbers
                         s.pop("asnum", None)
                         r.setdefault("asnum", 65000 + idx[R])
-                    if rng.random() < 0.7:
+                    if consts_flavour:
+                        if rng.random() < 0.85:
+                            s["families"] = set(rule_fams if rng.random() < 0.5 else rng.choice(fam_pool))
+                    elif rng.random() < 0.7:
                         s["families"] = set(f for f in FAMS if rng.random() < 0.5)
                     if rng.random() < 0.3:
                         s["vrf"] = rng.choice(["V1", "V1", "V2"]) if variant else "V1"
@@ -606,15 +663,14 @@ def exec_term(case, out) -> str:
 def run_exec_part(ctx, tbl):
     rng = ctx.rng("exec")
     n = 2000 if ctx.thorough else 260
-    cases = [gen_exec_case(rng, ctx.thorough) for _ in range(n)]
+    cases = [dict(gen_exec_case(rng, ctx.thorough), seq=True) for _ in range(n)]
     outs = core.run_impl_sharded("c15_runner.py", cases, wrap=lambda c: {"op": "exec", "cases": c},
                                  shards=min(core.NPROC, max(1, len(cases) // 10)))
     terms = [exec_term(c, o) for c, o in zip(cases, outs)]
     res = core.run_case_files(ID, "exec_output", IMPORTS, {"holds": "fun c => P_C15_exec c"}, terms,
                               per_file=40, tag="exec")
-    eterms = [ecase_term(c, o) for c, o in zip(cases, outs)]
-    res2 = core.run_case_files(ID, "ecase * list (string * eres)", IMPORTS_IFACE,
-                               {"agree": AGREE_EXEC, "noleak": "fun c => P_C15_no_leak (fst c) (snd c)"}, eterms,
+    eterms = [cpair(ecase_term(c, o), seq_term(o)) for c, o in zip(cases, outs)]
+    res2 = core.run_case_files(ID, TY_EXEC_SEQ, IMPORTS_SEQ, EXEC_SEQ_PREDS, eterms,
                                per_file=20, tag="exec_model", extra_defs=schema_defs(tbl))
     stats = {"runs": 0, "ok": 0, "ValueError": 0, "other": 0, "peers": 0,
              "cases_with_peers_on_both_ends": 0, "permutations": 0,
@@ -667,7 +723,44 @@ def run_exec_part(ctx, tbl):
             what="MeshExecutor.execute_for: a peer carries an option / policy / family no handler call for its "
                  "device pair has set (data of another pair's session leaked into it)",
             replay={"kind": "exec", "case": c, "impl": {d: o["out"][d][:1] for d in c["devices"]}}))
-    if not res["holds"] and not res2["noleak"]:
+    lit_rule = lambda c: any(r.get("left") in LITERALS or r.get("right") in LITERALS for r in c["rules"])  # noqa: E731
+    for i in res2["noloss"][:2]:
+        c, o = cases[i], outs[i]
+        ctx.add_violation(core.Violation(
+            signature="C15/handler-data-lost/" + ("literal-name-rule" if lit_rule(c) else "pattern-rules"),
+            what="MeshExecutor.execute_for: a handler call of a rule matching a device pair does not show in the "
+                 "outcome of one of its ends (no peer towards the other end at the address the handler gave, or the "
+                 "peer lacks an option / policy / family / AS number / vrf the call wrote)",
+            replay={"kind": "exec", "case": c, "impl": {d: o["out"][d][:1] for d in c["devices"]}}))
+    for key, where in (("families", "a fresh run"), ("families_seq", "a later run of a sequence in one process")):
+        for i in res2[key][:1]:
+            c, o = cases[i], outs[i]
+            ctx.add_violation(core.Violation(
+                signature="C15/family-nobody-assigned/" + ("fresh" if key == "families" else "sequence"),
+                what=f"MeshExecutor.execute_for ({where}; handlers assign shared constant sets): a peer has an address "
+                     "family no handler call for its device pair assigned",
+                replay={"kind": "exec", "case": c, "impl": {"fresh": {d: o["out"][d][:1] for d in c["devices"]},
+                                                            "sequence": o.get("seq")}}))
+    for i in (res2["history"] + [j for j in res2["noleak_seq"] if j not in res2["history"]])[:2]:
+        c, o = cases[i], outs[i]
+        ctx.add_violation(core.Violation(
+            signature="C15/result-depends-on-earlier-runs",
+            what="MeshExecutor.execute_for: the outcome for a device as the k-th execute_for call of a process (one "
+                 "registry whose handlers assign constant objects, two executors) differs from the outcome in a fresh "
+                 "process: data of earlier sessions got into objects the handlers own",
+            replay={"kind": "exec", "case": c, "impl": {"fresh": {d: o["out"][d][:1] for d in c["devices"]},
+                                                        "sequence": o.get("seq")}}))
+    stats["literal_name_rules"] = sum(1 for c in cases for r in c["rules"]
+                                      if r.get("left") in LITERALS or r.get("right") in LITERALS)
+    stats["cases_literal_rule_next_to_pattern_rule"] = sum(
+        1 for c in cases if lit_rule(c) and any(r["kind"] != "virtual" and r["left"] not in LITERALS
+                                                and r["right"] not in LITERALS for r in c["rules"]))
+    stats["literal_rule_calls"] = sum(len(r["table"]) for c in cases for r in c["rules"]
+                                      if r.get("left") in LITERALS or r.get("right") in LITERALS)
+    stats["sequence_runs"] = sum(len(o.get("seq", [])) for o in outs)
+    stats["sequence_runs_ok"] = sum(1 for o in outs for _, r in o.get("seq", []) if "ok" in r)
+    new_bad = res2["noloss"] or res2["families"] or res2["families_seq"] or res2["history"] or res2["noleak_seq"]
+    if not res["holds"] and not res2["noleak"] and not new_bad:
         for i in res2["agree"][:1]:
             c, o = cases[i], outs[i]
             ctx.add_violation(core.Violation(
@@ -747,7 +840,8 @@ def gen_table_cases() -> list[dict]:
                     # b1 iterates its own connection order
                     order = [q for q, _, _ in ports["b1"]]
                     exp_b.sort(key=lambda e: order.index(e["ports"][0]))
-                rule = {"kind": "direct", "left": "a{n}", "right": "b{n}", "cond": "none", "pp": pp, "table": table}
+                lm, rm = [("a{n}", "b{n}"), ("a1", "b{n}"), ("a{n}", "b1"), ("a1", "b1")][(i // 2) % 4]
+                rule = {"kind": "direct", "left": lm, "right": rm, "cond": "none", "pp": pp, "table": table}
                 cases.append({"devices": ["a1", "b1"], "ports": ports, "rules": [rule], "table_kind": "direct",
                               "expect": {"a1": exp_a, "b1": exp_b}})
     n = len(INDIRECT_COMBOS)
@@ -769,7 +863,8 @@ def gen_table_cases() -> list[dict]:
             la, ra = dict(t["l"], **t["s"]), dict(t["r"], **t["s"])
             exp["a1"].append({"ports": [], "local": la, "conn": ra, "host": other})
             exp[other].append({"ports": [], "local": ra, "conn": la, "host": "a1"})
-        rule = {"kind": "indirect", "left": "a{n}", "right": "{r:[bc]}{n}", "cond": "none", "pp": "united", "table": table}
+        lm, rm = [("a{n}", "{r:[bc]}{n}"), ("a1", "{r:[bc]}{n}")][(i // 3) % 2]
+        rule = {"kind": "indirect", "left": lm, "right": rm, "cond": "none", "pp": "united", "table": table}
         cases.append({"devices": ["a1", "b1", "c1"], "ports": ports, "rules": [rule], "table_kind": "indirect",
                       "expect": exp})
     svis = (UNSET, 0, 1, 30)
@@ -849,8 +944,28 @@ def ecase_term(case, out) -> str:
     return cpair(ec, obs)
 
 
+def seq_term(out) -> str:
+    """the runs of the in-process sequence (shared handler constants, two executors), in the order they were made"""
+    return clist(cpair(cstr(d), ceres(o)) for d, o in out.get("seq", []))
+
+
+TY_EXEC_SEQ = "(ecase * list (string * eres)) * list (string * eres)"
 AGREE_EXEC = ("fun c => agree_exec sch_DirectPeerDTO sch_IndirectPeerDTO sch_VirtualLocalDTO sch_VirtualPeerDTO "
               "sch_PairDirect (fst c) (snd c)")
+
+
+EXEC_SEQ_PREDS = {
+    "agree": "fun c => (" + AGREE_EXEC + ") (fst c)",
+    "noleak": "fun c => P_C15_no_leak (fst (fst c)) (snd (fst c))",
+    # every handler call of a matching rule shows in the outcome of both ends (presence and content)
+    "noloss": "fun c => P_C15_no_loss (fst (fst c)) (snd (fst c))",
+    # every address family of a peer was assigned by a call for its pair: fresh runs, and runs of the sequence
+    "families": "fun c => P_C15_families_assigned (fst (fst c)) (snd (fst c))",
+    "families_seq": "fun c => P_C15_families_assigned (fst (fst c)) (snd c)",
+    "noleak_seq": "fun c => P_C15_no_leak (fst (fst c)) (snd c)",
+    # a run inside a sequence of runs in one process = the run in a fresh state
+    "history": "fun c => P_C15_history (snd (fst c)) (snd c)",
+}
 
 
 def run_iface_part(ctx, tbl):
@@ -1001,19 +1116,25 @@ def replay(ctx, doc):
                                    "agree": "fun c => agree_merge (fst c) (snd c)"},
                                   [merge_term(tbl, c, out)], tag="replay", extra_defs=schema_defs(tbl))
         print("impl:", json.dumps(out)[:3000])
-        print("holds:", not res["holds"], "agree:", not res["agree"])
-        return 1 if res["holds"] else 0
+        fr = core.run_case_files(ID, TY_MERGE_FRAME, IMPORTS_SEQ, {"frame": "fun c => P_C15_frame (fst (fst c)) (snd c)"},
+                                 [cpair(merge_term(tbl, c, out), cpair(*(centries(x["v"]) for x in out["after"])))],
+                                 tag="replay_frame", extra_defs=schema_defs(tbl))
+        print("holds:", not res["holds"], "agree:", not res["agree"], "operands unchanged:", not fr["frame"])
+        return 1 if (res["holds"] or fr["frame"]) else 0
     if r.get("kind") == "exec":
         c = r["case"]
         out = core.run_impl("c15_runner.py", {"op": "exec", "cases": [c]})[0]
         res = core.run_case_files(ID, "exec_output", IMPORTS, {"holds": "fun c => P_C15_exec c"},
                                   [exec_term(c, out)], tag="replay")
-        res2 = core.run_case_files(ID, "ecase * list (string * eres)", IMPORTS_IFACE,
-                                   {"noleak": "fun c => P_C15_no_leak (fst c) (snd c)"},
-                                   [ecase_term(c, out)], tag="replay2", extra_defs=schema_defs(tbl))
+        res2 = core.run_case_files(ID, TY_EXEC_SEQ, IMPORTS_SEQ, EXEC_SEQ_PREDS,
+                                   [cpair(ecase_term(c, out), seq_term(out))], tag="replay2",
+                                   extra_defs=schema_defs(tbl))
         print("impl:", json.dumps({d: out["out"][d][:2] for d in c["devices"]})[:4000])
-        print("holds:", not res["holds"], "noleak:", not res2["noleak"])
-        return 1 if (res["holds"] or res2["noleak"]) else 0
+        if "seq" in out:
+            print("sequence:", json.dumps(out["seq"])[:4000])
+        bad = [k for k in EXEC_SEQ_PREDS if k != "agree" and res2[k]]
+        print("holds:", not res["holds"], "violated clauses:", bad, "model agrees:", not res2["agree"])
+        return 1 if (res["holds"] or bad) else 0
     if r.get("kind") == "iface":
         c, d = r["case"], r["device"]
         out = core.run_impl("c15_runner.py", {"op": "exec", "cases": [c]})[0]
